@@ -337,6 +337,13 @@ def check_knn_scan(rep, pre: str, scan: KnnScan, graph: Term, allow_self_skip: b
             need = ("cmp", "!=", *sorted([K("FLOAT_MAX"), ("idx", scan.D, t[2])], key=repr))
             # (`d < FLOAT_MAX` is `d != FLOAT_MAX` for a distance: nothing exceeds the largest float)
             ok = has_guard(e.guards, need) or has_guard(e.guards, ("cmp", "<", ("idx", scan.D, t[2]), K("FLOAT_MAX")))
+            if not ok and t[2][0] == "iter" and t[2][1][0] == "listcomp" and len(t[2][1][2]) == 1:
+                # the slot comes from a list of ranks filtered by that very test: [r for r in ... if d[r] != FLOAT_MAX]
+                lc = t[2][1]
+                rr = ("iter", lc[2][0][0], lc[2][0][1])
+                if lc[1] == rr:
+                    ok = any(c in (("cmp", "!=", *sorted([K("FLOAT_MAX"), ("idx", scan.D, rr)], key=repr)),
+                                   ("cmp", "<", ("idx", scan.D, rr), K("FLOAT_MAX"))) for c in lc[2][0][2])
             rep.ev(pre + "KNN-valid-slot", e, ok,
                    f"index buffer slot '{show(t[2])}' is read without checking that its distance is not FLOAT_MAX "
                    "(fewer than k candidates => stale index)")
